@@ -250,9 +250,13 @@ namespace bluetoe {
 
             device_pairing_status local_device_pairing_status() const
             {
-                return this->state() == details::sm_pairing_state::pairing_completed
-                    ? bluetoe::device_pairing_status::unauthenticated_key
-                    : bluetoe::device_pairing_status::no_key;
+                if ( this->state() != details::sm_pairing_state::pairing_completed )
+                    return bluetoe::device_pairing_status::no_key;
+
+                // passkey entry and OOB are not implemented for LESC: only a confirmed numeric comparison authenticates the peer
+                return algorithm_ == details::lesc_pairing_algorithm::numeric_comparison
+                    ? bluetoe::device_pairing_status::authenticated_key
+                    : bluetoe::device_pairing_status::unauthenticated_key;
             }
 
             std::pair< bool, details::uint128_t > find_key( std::uint16_t ediv, std::uint64_t rand ) const
@@ -461,9 +465,10 @@ namespace bluetoe {
 
                 long_term_key_ = long_term_key;
 
-                pairing_status_ = state_data_.lesc_state.algorithm == details::lesc_pairing_algorithm::just_works
-                    ? device_pairing_status::unauthenticated_key
-                    : device_pairing_status::authenticated_key;
+                // passkey entry and OOB are not implemented for LESC: only a confirmed numeric comparison authenticates the peer
+                pairing_status_ = state_data_.lesc_state.algorithm == details::lesc_pairing_algorithm::numeric_comparison
+                    ? device_pairing_status::authenticated_key
+                    : device_pairing_status::unauthenticated_key;
             }
 
             const details::uint128_t& c1_p1() const
